@@ -9,34 +9,34 @@ import (
 )
 
 type tcpLnState struct {
-	cell    *Cell
-	addrKey string
-	addr    Value // PtrV to *net.TCPAddr
-	closed  bool
-	queue   []*tcpConnState
-	waiters []*G
-	accepts int
+	cell        *Cell
+	addrKey     string
+	addr        Value // PtrV to *net.TCPAddr
+	closed      bool
+	queue       []*tcpConnState
+	waiters     []*G
+	accepts     int
 	deadlineSet bool
 }
 
 type tcpConnState struct {
-	in       []*Term // bytes sent by the peer, not yet read
-	peerFIN  bool    // the peer closed its write side
-	out      int     // bytes written by the server side
-	waiters  []*G
-	cell   *Cell
-	closed int
-	local  Value
-	remote Value
-	id     int
+	in      []*Term // bytes sent by the peer, not yet read
+	peerFIN bool    // the peer closed its write side
+	out     int     // bytes written by the server side
+	waiters []*G
+	cell    *Cell
+	closed  int
+	local   Value
+	remote  Value
+	id      int
 }
 
 type tcpModel struct {
-	lns      map[*Cell]*tcpLnState
-	conns    map[*Cell]*tcpConnState
-	bound    map[string]*tcpLnState
-	nextPort int
-	allConns []*tcpConnState
+	lns          map[*Cell]*tcpLnState
+	conns        map[*Cell]*tcpConnState
+	bound        map[string]*tcpLnState
+	nextPort     int
+	allConns     []*tcpConnState
 	listenFaults map[string]bool
 	listenCount  map[int]int
 }
